@@ -97,21 +97,21 @@ MUTANTS = [
      "on_field_end dropped from the generic executor's fail path"),
     ("m09-blocking-end-success-only", "C16",
      "execution/blocking_executor.py",
-     """        except (CoercionError, ResolverError) as err:
-            self.add_error(err, path, node)
-            return None
-        finally:
+     """        finally:
             self.instrumentation.on_field_end(
                 parent_value, self.context_value, info
             )
+
+        return self.complete_value(
 """,
-     """        except (CoercionError, ResolverError) as err:
-            self.add_error(err, path, node)
-            return None
+     """        finally:
+            pass
 
         self.instrumentation.on_field_end(
             parent_value, self.context_value, info
         )
+
+        return self.complete_value(
 """,
      "BlockingExecutor fires on_field_end only on success"),
     ("m10-middleware-dup", "C16", "execution/executor.py",
